@@ -2,7 +2,7 @@
      FUEL NVARS (NAME STR)... NTEMPLATES TEMPLATE...
      TEMPLATE := NTOPS TOP... NBLOCKS (NAME SCOPED01 REQUIRED01 NITEMS ITEM...)...
      TOP      := x0 | x1 | x2 | i ITEM          (extends: known / if true / if false)
-     ITEM     := s STR | v NAME | b NAME | u K | f NAME | l NAME NVALS STR... NITEMS ITEM...
+     ITEM     := s STR | e STR | v NAME | b NAME | u K | f NAME | l NAME NVALS STR... NITEMS ITEM...
      STR      := - | c1.c2.c3 (code points)
    prints   M RES | S RES | W 0/1 | P RES | B name:j,j,..;...
    RES := O STR | E ERR;  P = model on the chain with child content after extends stripped *)
@@ -22,6 +22,7 @@ let rec rep n f = if n <= 0 then [] else let x = f () in x :: rep (n - 1) f
 let rec item () =
   match next () with
   | "s" -> IText (str_of (next ()))
+  | "e" -> IStmt (str_of (next ()))
   | "v" -> IVar (n_of_int (int ()))
   | "b" -> IBlock (n_of_int (int ()))
   | "u" -> ISuper (nat_of_int (int ()))
